@@ -897,17 +897,40 @@ Proof.
   unfold METADATA_GROUPS. repeat constructor; congruence.
 Qed.
 
-Theorem valid_sound_hdf5 f : validate_hdf5 f = true -> valid_h5 f.
+(* the part of the guarantee that does not depend on the requested version *)
+Definition valid_h5_core (f : h5file) : Prop :=
+  Forall (fun k => aget (h_attrs f) k <> None) (map fst H_REQUIRED_ATTRS)
+  /\ Forall (fun p => hfind (h_root f) p <> None) (H_REQUIRED_GROUPS ++ H_REQUIRED_DATASETS)
+  /\ exists no ns oi si,
+       aget (h_attrs f) (K "shape") = Some (AInts [no; ns])
+       /\ hfind (h_root f) (P2 "observation" "ids") = Some oi /\ hfind (h_root f) (P2 "sample" "ids") = Some si
+       /\ no = Z.of_nat (node_len oi) /\ ns = Z.of_nat (node_len si)
+       /\ ids_ok oi /\ ids_ok si
+       /\ matrix_ok f 0 no ns /\ matrix_ok f 1 ns no.
+
+(* what the version test adds: the file says the version that was asked for; for 2.1 the four
+   metadata groups are there *)
+Definition version_ok (ver : hver) (f : h5file) : Prop :=
+  match ver with
+  | HV21 => aget (h_attrs f) (K "format-version") = Some (AInts [2; 1])
+            /\ Forall (fun p => hfind (h_root f) p <> None) METADATA_GROUPS
+  | HV20 => aget (h_attrs f) (K "format-version") = Some (AInts [2; 0])
+  end.
+
+Lemma list_eqb_Z_true a b : list_eqb Z.eqb a b = true -> a = b.
+Proof. apply list_eqb_Z_eq. Qed.
+
+Theorem valid_sound_hdf5_as ver f : validate_hdf5_as ver f = true -> valid_h5_core f /\ version_ok ver f.
 Proof.
-  unfold validate_hdf5. destruct (validate_hdf5_report f) as [[[|] lines]|] eqn:R; try discriminate. intros _.
-  unfold validate_hdf5_report in R.
+  unfold validate_hdf5_as. destruct (validate_hdf5_report_as ver f) as [[[|] lines]|] eqn:R; try discriminate. intros _.
+  unfold validate_hdf5_report_as in R.
   inv_bind R as a Ha. inv_bind R as i0 Hi0. inv_bind R as i1 Hi1. inv_bind R as s Hs. inv_bind R as v Hv.
-  inversion R as [[Hl _]]. clear R.
+  apply ROk_inj in R. assert (Hl := f_equal fst R). cbn [fst] in Hl. clear R.
   destruct (a ++ missing_paths f HMSG_GROUP H_REQUIRED_GROUPS 0 ++ missing_paths f HMSG_DATASET H_REQUIRED_DATASETS 0
-              ++ i0 ++ i1 ++ s ++ v) eqn:L; [|discriminate]. clear Hl.
+              ++ i0 ++ i1 ++ s ++ snd v) eqn:L; [|discriminate]. clear Hl.
   apply app_nil_inv in L. destruct L as [-> L]. apply app_nil_inv in L. destruct L as [Lg L].
   apply app_nil_inv in L. destruct L as [Ld L]. apply app_nil_inv in L. destruct L as [-> L].
-  apply app_nil_inv in L. destruct L as [-> L]. apply app_nil_inv in L. destruct L as [-> ->].
+  apply app_nil_inv in L. destruct L as [-> L]. apply app_nil_inv in L. destruct L as [-> Lv].
   apply run_attrs_sound in Ha. apply missing_paths_sound in Lg. apply missing_paths_sound in Ld.
   assert (A : forall k v, In (k, v) H_REQUIRED_ATTRS -> exists a, aget (h_attrs f) k = Some a /\ v a = ROk None).
   { intros k v' Hin. rewrite Forall_forall in Ha. exact (Ha (k, v') Hin). }
@@ -915,10 +938,18 @@ Proof.
   destruct sh as [?|?|?|[|x [|y [|? ?]]]|[|x [|y [|? ?]]]]; try discriminate.
   rewrite Gsh in Hs.
   destruct (A (K "format-version") hv_format_version) as [fv [Gfv Vfv]]; [cbn; tauto|].
-  rewrite Gfv in Hv.
-  assert (Md : Forall (fun p => hfind (h_root f) p <> None) METADATA_GROUPS).
-  { destruct fv as [?|?|?|l|?]; try discriminate.
-    destruct (list_eqb Z.eqb l [2; 1]); [exact (hv_metadata_sound f Hv)|discriminate]. }
+  assert (Vo : version_ok ver f).
+  { unfold version_part in Hv. rewrite Gfv in Hv. destruct fv as [?|?|?|l|?]; try discriminate.
+    destruct ver; cbn [version_ok].
+    - destruct (list_eqb Z.eqb l [2; 0]) eqn:E.
+      + apply list_eqb_Z_true in E. subst. exact Gfv.
+      + apply ROk_inj in Hv. subst v. discriminate Lv.
+    - destruct (list_eqb Z.eqb l [2; 1]) eqn:E.
+      + apply list_eqb_Z_true in E. subst. split; [exact Gfv|].
+        inv_bind Hv as e He. apply ROk_inj in Hv. subst v. cbn [snd] in Lv. subst e.
+        exact (hv_metadata_sound f He).
+      + apply ROk_inj in Hv. subst v. discriminate Lv. }
+  split; [|exact Vo].
   unfold shape_part in Hs.
   destruct (hfind (h_root f) (P2 "observation" "ids")) as [oi|] eqn:Eo; [|discriminate].
   destruct (hfind (h_root f) (P2 "sample" "ids")) as [si|] eqn:Es; [|discriminate].
@@ -940,7 +971,7 @@ Proof.
   { apply Forall_forall. intros k Hk. apply in_map_iff in Hk. destruct Hk as [[k' v'] [<- Hin]].
     destruct (A _ _ Hin) as [a [Ga _]]. cbn [fst]. congruence. }
   split.
-  { apply Forall_app. split; [exact Lg|]. apply Forall_app. split; [exact Md|exact Ld]. }
+  { apply Forall_app. split; [exact Lg|exact Ld]. }
   exists x, y, oi, si. split; [exact Gsh|]. split; [exact Eo|]. split; [exact Es|].
   split; [lia|]. split; [lia|].
   split; [exact (hv_ids_sound f 0 oi Hi0 Eo)|]. split; [exact (hv_ids_sound f 1 si Hi1 Es)|].
@@ -948,6 +979,39 @@ Proof.
   - exact (hv_matrix_sound f 0 x y d0 n0 p0 Ed0 En0 Ep0 Hx0).
   - exact (hv_matrix_sound f 1 y x d1 n1 p1 Ed1 En1 Ep1 Hx1).
 Qed.
+
+(* the default of validate-table (and the spellings 2.1 / 2.1.0) *)
+Theorem valid_sound_hdf5 f : validate_hdf5 f = true -> valid_h5 f.
+Proof.
+  intros H. destruct (valid_sound_hdf5_as HV21 f H) as ((A & G & E) & (_ & Md)).
+  split; [exact A|]. split; [|exact E].
+  apply Forall_app in G. destruct G as [Gg Gd].
+  apply Forall_app. split; [exact Gg|]. apply Forall_app. split; [exact Md|exact Gd].
+Qed.
+
+(* run(): which requested versions lead where.  The four spellings of "2.1" validate against
+   2.1, the two spellings of "2.0" against 2.0, everything else is refused with ValueError;
+   for JSON only None / 'None' / '1.0.0' are taken *)
+Lemma run_version_spellings :
+  run_version_hdf5 None = ROk HV21 /\ run_version_hdf5 (Some (K "None")) = ROk HV21
+  /\ run_version_hdf5 (Some (K "2.1")) = ROk HV21 /\ run_version_hdf5 (Some (K "2.1.0")) = ROk HV21
+  /\ run_version_hdf5 (Some (K "2.0")) = ROk HV20 /\ run_version_hdf5 (Some (K "2.0.0")) = ROk HV20
+  /\ run_version_hdf5 (Some (K "1.0.0")) = RErr E_VALUE /\ run_version_hdf5 (Some (K "3.0")) = RErr E_VALUE
+  /\ run_version_hdf5 (Some (K "2")) = RErr E_VALUE /\ run_version_hdf5 (Some (K "x.y")) = RErr E_VALUE
+  /\ run_version_json None = ROk tt /\ run_version_json (Some (K "None")) = ROk tt
+  /\ run_version_json (Some (K "1.0.0")) = ROk tt /\ run_version_json (Some (K "1.0")) = RErr E_VALUE
+  /\ run_version_json (Some (K "2.1")) = RErr E_VALUE.
+Proof. repeat split; vm_compute; reflexivity. Qed.
+
+(* so a file accepted under any accepted spelling of 2.1 has the full 2.1 structure *)
+Theorem run_hdf5_sound fv f lines :
+  run_hdf5 fv f = ROk (true, lines) ->
+  exists ver, run_version_hdf5 fv = ROk ver /\ valid_h5_core f /\ version_ok ver f.
+Proof.
+  unfold run_hdf5. intros H. inv_bind H as ver Hver. exists ver. split; [exact Hver|].
+  apply valid_sound_hdf5_as. unfold validate_hdf5_as. rewrite H. reflexivity.
+Qed.
+
 
 (* ------------------------------------------------------------------ rejections, read off soundness *)
 Lemma not_valid_false j : ~ valid_doc j -> validate_json j = false.
